@@ -1,20 +1,22 @@
-(* C17 -- INPUT (statements grow with Proofs/Input.v). *)
-From BL Require Import Base.Prelude Mach.Val Mach.Compile Mach.Runtime.
+(* C17 -- INPUT cuts a reply at the commas outside double quotes.  Statements only; proofs in Proofs/Input.v. *)
+From BL Require Import Base.Prelude Mach.Val Mach.Compile Mach.Runtime Proofs.Input.
 Local Open Scope N_scope.
 
-(* a reply without commas and quotes is one field *)
 Theorem C17_split_single : forall s, ~ In 44 s -> ~ In 34 s -> split_fields s [] false = [s].
-Proof.
-  intros s Hc Hq.
-  assert (G : forall cur, split_fields s cur false = [rev cur ++ s]).
-  { induction s as [| c r IH]; intros cur; cbn.
-    - rewrite app_nil_r. reflexivity.
-    - destruct (N.eqb_spec c 34) as [-> | H1]; [exfalso; apply Hq; left; reflexivity |].
-      destruct (N.eqb_spec c 44) as [-> | H2]; [exfalso; apply Hc; left; reflexivity |].
-      cbn. rewrite IH.
-      + cbn. rewrite <- app_assoc. reflexivity.
-      + intros Hin; apply Hc; right; exact Hin.
-      + intros Hin; apply Hq; right; exact Hin. }
-  exact (G []).
-Qed.
+Proof. exact old_C17_split_single. Qed.
 Print Assumptions C17_split_single.
+
+(* nothing is lost or invented: the fields joined by commas are the reply, for every reply *)
+Theorem C17_split_join : forall s, join_commas (split_fields s [] false) = s.
+Proof. exact split_join. Qed.
+Print Assumptions C17_split_join.
+
+(* n fields with closed quotes and no comma outside quotes, joined by commas, split into exactly those n fields *)
+Theorem C17_split_exact : forall fs, fs <> [] -> Forall (fun f => scan f false = Some false) fs ->
+  split_fields (join_commas fs) [] false = fs.
+Proof. exact split_exact. Qed.
+Print Assumptions C17_split_exact.
+
+Theorem C17_split_nonempty : forall s cur q, split_fields s cur q <> [].
+Proof. exact split_nonempty. Qed.
+Print Assumptions C17_split_nonempty.
